@@ -148,19 +148,29 @@ type version struct {
 	Skipped bool `json:"skipped,omitempty"`
 	// ExpectErr: the harness provoked the failure (failed download ...).
 	ExpectErr bool `json:"expect_err,omitempty"`
+	// Intended content of a successful save, when the harness knows it
+	// independently of the file (Want*), and whether it was given.
+	HasWant bool   `json:"has_want,omitempty"`
+	WantLen int    `json:"want_len,omitempty"`
+	WantHex string `json:"want_hex,omitempty"`
 }
 
 func snapshot(path string) (v version) {
+	v, _ = snapshotB(path)
+	return v
+}
+
+func snapshotB(path string) (v version, b []byte) {
 	b, err := os.ReadFile(path)
 	if err != nil {
-		return version{}
+		return version{}, nil
 	}
 	h := sha256.Sum256(b)
 	v = version{Exists: true, Len: len(b), Sha: hex.EncodeToString(h[:])}
 	if len(b) <= SmallLimit {
 		v.Hex = hex.EncodeToString(b)
 	}
-	return v
+	return v, b
 }
 
 // Case is one traced scenario on one destination path.
@@ -172,6 +182,40 @@ type Case struct {
 	Classes  []string
 	versions []version
 	Info     map[string]any
+
+	prev       []byte // content at dst after the previous save attempt
+	prevExists bool
+	want       []byte // intended content of the next successful save
+	hasWant    bool
+	contentBad string
+}
+
+// Want states, independently of the file system, what the next successful
+// save must leave at dst.
+func (c *Case) Want(b []byte) { c.want, c.hasWant = b, true }
+
+// judge is the content half of the property, checked after every save
+// attempt: a failed or skipped save leaves exactly the previous version, a
+// successful one exactly the intended new version.
+func (c *Case) judge(v *version, cur []byte, changedOK bool) {
+	if c.contentBad == "" {
+		switch {
+		case !changedOK && (v.Exists != c.prevExists || !bytes.Equal(cur, c.prev)):
+			c.contentBad = fmt.Sprintf("save attempt %q could not produce a complete new version (provoked failure=%v err=%q skipped=%v) but %s changed: %d -> %d bytes; it is neither the previous nor a complete new version",
+				v.Label, v.ExpectErr, v.Err, v.Skipped, filepath.Base(c.Dst), len(c.prev), len(cur))
+		case changedOK && c.hasWant && (!v.Exists || !bytes.Equal(cur, c.want)):
+			c.contentBad = fmt.Sprintf("save %q reported success but %s holds %d bytes that are not the intended new version (%d bytes)",
+				v.Label, filepath.Base(c.Dst), len(cur), len(c.want))
+		}
+	}
+	if changedOK && c.hasWant {
+		v.HasWant, v.WantLen = true, len(c.want)
+		if len(c.want) <= SmallLimit {
+			v.WantHex = hex.EncodeToString(c.want)
+		}
+	}
+	c.prev, c.prevExists = cur, v.Exists
+	c.want, c.hasWant = nil, false
 }
 
 func (s *Session) mark(what string) {
@@ -182,7 +226,7 @@ func (s *Session) mark(what string) {
 // Save runs one real save and records what is at dst afterwards.
 func (c *Case) Save(label string, f func() error) error {
 	err := f()
-	v := snapshot(c.Dst)
+	v, cur := snapshotB(c.Dst)
 	v.Label = label
 	if err != nil {
 		v.Err = err.Error()
@@ -190,6 +234,7 @@ func (c *Case) Save(label string, f func() error) error {
 			v.Err = v.Err[:200]
 		}
 	}
+	c.judge(&v, cur, err == nil)
 	c.versions = append(c.versions, v)
 	return err
 }
@@ -198,7 +243,7 @@ func (c *Case) Save(label string, f func() error) error {
 // expectErr says the harness provoked a failure on purpose.
 func (c *Case) SaveB(label string, expectErr bool, f func() (bool, error)) (replaced bool, err error) {
 	replaced, err = f()
-	v := snapshot(c.Dst)
+	v, cur := snapshotB(c.Dst)
 	v.Label, v.ExpectErr = label, expectErr
 	if err != nil {
 		v.Err = err.Error()
@@ -208,6 +253,8 @@ func (c *Case) SaveB(label string, expectErr bool, f func() (bool, error)) (repl
 	} else {
 		v.Skipped = !replaced
 	}
+	// a provoked failure must leave the previous version whatever the save path reports
+	c.judge(&v, cur, err == nil && replaced && !expectErr)
 	c.versions = append(c.versions, v)
 	return replaced, err
 }
@@ -228,7 +275,9 @@ func (s *Session) Case(name, dst string, keep []string, classes []string, body f
 		}
 		return nil
 	})
-	c.versions = append(c.versions, snapshot(dst))
+	v0, b0 := snapshotB(dst)
+	c.versions = append(c.versions, v0)
+	c.prev, c.prevExists = b0, v0.Exists
 	s.mark(fmt.Sprintf("begin-%d", s.seg))
 
 	// independent monitor: a reader polling dst while the saves run
@@ -288,7 +337,7 @@ func (s *Session) Case(name, dst string, keep []string, classes []string, body f
 	rec := map[string]any{
 		"seg": s.seg, "name": name, "dst": dst, "keep": keep, "classes": c.Classes,
 		"versions": c.versions, "initial": initial, "reader_polls": polls, "reader_distinct": len(seen),
-		"reader_bad": bad, "info": c.Info, "tmpdir": os.Getenv("TMPDIR"),
+		"reader_bad": bad, "content_bad": c.contentBad, "info": c.Info, "tmpdir": os.Getenv("TMPDIR"),
 	}
 	b, _ := json.Marshal(rec)
 	s.meta.Write(append(b, '\n'))
